@@ -79,6 +79,9 @@ type ViolationReport struct {
 	Seed     uint64        `json:"seed"`
 	Known    string        `json:"known,omitempty"`
 	ShrunkIn int           `json:"shrink_evals"`
+	Seed0    uint64        `json:"seed0"` // first seed this worker executed (sequence replay)
+	Stride   uint64        `json:"stride"`
+	Tier     string        `json:"tier"`
 	Orig     *ViolationRec `json:"orig,omitempty"`
 }
 
@@ -150,6 +153,8 @@ func main() {
 	traceLog := flag.Bool("tracelog", false, "record per-run trace hashes (determinism self-test)")
 	maxViol := flag.Int("maxviol", 3, "stop after this many distinct violations")
 	shrinkLim := flag.Duration("shrink", 60*time.Second, "time limit for minimising one violation")
+	stopSeed := flag.Uint64("stopseed", 0, "sequence replay: run seeds seed0..stopseed in this process and report only what the last one does")
+	stopClass := flag.String("stopclass", "", "sequence replay: expected violation class")
 	dump := flag.Bool("dump", false, "debug: print per-scenario cost")
 	dumpSeed := flag.Uint64("dumpseed", 0, "debug: run one seed, print the scenario and the yields per op")
 	flag.Parse()
@@ -209,6 +214,27 @@ func main() {
 			if prep != nil {
 				o.Steps += prep.Steps
 			}
+		}
+		if *stopSeed != 0 {
+			if seed < *stopSeed {
+				continue
+			}
+			// last scenario of the sequence: report and stop
+			if o.Infra != "" {
+				fmt.Println("INFRA", o.Infra)
+				os.Exit(2)
+			}
+			if o.Violation == nil {
+				fmt.Println("NOT-REPRODUCED: the sequence ran clean")
+				os.Exit(0)
+			}
+			rb, _ := json.Marshal(o.Violation)
+			if *stopClass != "" && o.Violation.Class != *stopClass {
+				fmt.Printf("DIFFERENT %s\n", rb)
+				os.Exit(3)
+			}
+			fmt.Printf("REPRODUCED (after %d preceding scenarios in the same process) %s\n%s\n", i, rb, o.Violation.Msg)
+			os.Exit(1)
 		}
 		if *dump {
 			fmt.Fprintf(os.Stderr, "seed %d steps %d t=%.2fs infra=%q viol=%v\n", seed, o.Steps, time.Since(start).Seconds(), o.Infra, o.Violation != nil)
@@ -272,7 +298,7 @@ func main() {
 			small, evals := shrink(sc, func(c *Scenario) *Outcome { return safeRun(wd.run, c) }, *shrinkLim)
 			path := filepath.Join(*replayDir, fmt.Sprintf("%s-%d.json", *prop, seed))
 			writeScenario(path, small)
-			sum.Violations = append(sum.Violations, ViolationReport{Rec: small.Expect, Replay: path, Seed: seed, ShrunkIn: evals, Orig: orig})
+			sum.Violations = append(sum.Violations, ViolationReport{Rec: small.Expect, Replay: path, Seed: seed, ShrunkIn: evals, Orig: orig, Seed0: *seed0, Stride: *stride, Tier: *tier})
 			if len(sum.Violations) >= *maxViol {
 				break
 			}
